@@ -88,6 +88,30 @@ def run(ctx):
     rt.compare_recorded(ctx, ops, meta, outs[:len(ops)], "stratified-model-vs-impl")
     rt.compare_recorded(ctx, o3, m3, outs[len(ops):], "stratified-buffers-refilled-in-place")
     rt.nan_strat_block(ctx, ctx.n(60, 800))      # NaN-coded non-responders (np.nanmean), Model/Nan.lean
+    # sim_corr when some stratum has no defined correlation (a single observation, or x or y constant in it): the documented statistic
+    # (a sum that includes that stratum) is NaN, nothing is at least as large as NaN, so the upper-tail p-value is (0 + c)/(reps + c)
+    import warnings
+    from permute import stratified as _st
+    for _ in range(ctx.n(30, 300)):
+        sizes = [ctx.rng.randint(2, 4) for _ in range(ctx.rng.randint(1, 2))]
+        kindu = ctx.rng.choice(["singleton", "x-constant", "y-constant"])
+        g_, x_, y_ = [], [], []
+        for gi, sz in enumerate(sizes):
+            g_ += [gi + 1] * sz; x_ += [float(v) for v in ctx.rng.sample(range(0, 20), sz)]; y_ += [float(v) for v in ctx.rng.sample(range(0, 20), sz)]
+        if kindu == "singleton":
+            g_.append(9); x_.append(3.0); y_.append(4.0)
+        else:
+            g_ += [9, 9, 9]; x_ += ([5.0] * 3 if kindu == "x-constant" else [1.0, 2.0, 4.0]); y_ += ([7.0] * 3 if kindu == "y-constant" else [3.0, 1.0, 2.0])
+        reps_ = ctx.rng.randint(1, 12); plus1_ = ctx.rng.random() < 0.5; c_ = 1 if plus1_ else 0
+        with warnings.catch_warnings():
+            warnings.simplefilter("ignore")
+            r = guarded(_st.sim_corr, np.array(x_), np.array(y_), np.array(g_), reps=reps_, alternative="greater", seed=ctx.rng.randint(0, 10**6), plus1=plus1_)
+        ctx.case(("simcorr-undefined", kindu, tuple(g_), tuple(x_), tuple(y_), reps_, plus1_), True); ctx.count("sim_corr-undefined-stratum-" + kindu)
+        okk = r[0] == "ok" and float(r[1][1]) != float(r[1][1]) and abs(float(r[1][0]) - c_ / (reps_ + c_)) <= 1e-12
+        if not okk:
+            ctx.violation("oracle", {"call": "sim_corr", "x": x_, "y": y_, "group": g_, "reps": reps_, "plus1": plus1_, "alternative": "greater", "undefined_stratum": kindu,
+                                     "issue": "a stratum without a defined correlation: the statistic (a sum over all strata) must be NaN and the upper-tail p-value (0 + c)/(reps + c)",
+                                     "returned": str(r[1:])[:200]}, site="sim_corr")
     # documented statistic options on the implementation: mean statistic with more than two conditions, 't'
     from permute import stratified
     for _ in range(ctx.n(60, 600)):
